@@ -42,13 +42,17 @@ type Program struct {
 	initHyps []*Term
 	initCtr  int64
 
-	loopInvs   map[string][]*LoopInv
-	summaries  map[string]*Summary
-	intrinsics map[string]func(ex *Exec, f *Frame, call *ssa.Call, args []Value, reach *Term) (Value, *Term)
-	overlay    map[string][]byte
-	repoDir    string
-	modelsUsed map[string]bool
-	nextUnk    int64
+	loopInvs      map[string][]*LoopInv
+	summaries     map[string]*Summary
+	intrinsics    map[string]func(ex *Exec, f *Frame, call *ssa.Call, args []Value, reach *Term) (Value, *Term)
+	overlay       map[string][]byte
+	repoDir       string
+	modelsUsed    map[string]bool
+	nextUnk       int64
+	directives    map[string][]string
+	modSets       map[string]*modSet
+	kindTemplates map[string]kindInfo
+	contractsDir  string
 }
 
 const litBase int64 = 1 << 50
@@ -119,6 +123,25 @@ func LoadProgram(repoDir, contractsDir string) (*Program, error) {
 			P.files[name] = f
 		}
 	}
+	P.contractsDir = contractsDir
+	P.directives = map[string][]string{}
+	for name, f := range P.files {
+		if _, isOv := P.overlay[name]; !isOv {
+			continue
+		}
+		for _, d := range f.Decls {
+			fd, ok := d.(*ast.FuncDecl)
+			if !ok || fd.Doc == nil {
+				continue
+			}
+			for _, c := range fd.Doc.List {
+				if strings.HasPrefix(c.Text, "//verif:") {
+					P.directives[fd.Name.Name] = append(P.directives[fd.Name.Name], strings.TrimSpace(strings.TrimPrefix(c.Text, "//verif:")))
+				}
+			}
+		}
+	}
+	P.loadContractDirectives()
 	// deterministic ids for repo globals and functions
 	var paths []string
 	for p := range P.spkgs {
